@@ -1168,7 +1168,7 @@ pub fn run(args: &Args, out: &mut Out) {
             idx += 1;
         }
     }
-    let total = args.n(160, 6000);
+    let total = args.n(1500, 20_000);
     for _ in 0..total {
         // shape from the index so every shape is hit equally often; 3 and 4 fields twice as often
         let pick = [(1, false), (2, false), (3, false), (3, true), (4, false), (4, true), (2, true), (1, true), (3, false), (4, false)][(idx % 10) as usize];
